@@ -1392,11 +1392,13 @@ func (e *endpoint) HandlePacket(r *stack.Route, id stack.TransportEndpointID, vv
 		e.stack.Stats().TCP.ResetsReceived.Increment()
 	}
 
-	// Send packet to worker goroutine.
+	// Send packet to worker goroutine. Once queued, the segment belongs to
+	// the worker (which may trim it), so copy what the log line needs first.
+	flags, seq, ack := s.flags, s.sequenceNumber, s.ackNumber
 	if e.segmentQueue.enqueue(s) {
 		log.Printf("@传输层 tcp:recv tcp %s segment from %s, seq: %d, ack: %d",
-			flagString(s.flags), fmt.Sprintf("%s:%d", s.id.RemoteAddress, s.id.RemotePort),
-			s.sequenceNumber, s.ackNumber)
+			flagString(flags), fmt.Sprintf("%s:%d", id.RemoteAddress, id.RemotePort),
+			seq, ack)
 		e.newSegmentWaker.Assert()
 	} else {
 		// The queue is full, so we drop the segment.
